@@ -21,7 +21,7 @@ SPEC = {
             "that fail to parse are harness errors, never skipped). "
             "part c15_io: every grid shape with 1-3 points per dimension in 1-3 dimensions x per-dimension kind (non-periodic "
             "variable, periodic variable on part of / on the whole period) x two parameter alphabets (few digits, many digits) x "
-            "{count, scalar, gradient, gradient+samples} x 10 write/read paths (multicolumn->file constructor, ->read_multicol with "
+            "{count, scalar, gradient, gradient+samples} x 10 write/read paths (multicolumn->file constructor, and for scalar grids the restart form of that variable-less grid read into another one built from the same file, ->read_multicol with "
             "and without add, restart text/binary into a same-shaped fresh grid or into a fresh grid that differs from the "
             "source in EVERY non-empty subset of dimensions (boundaries+width+size, upper boundary only, or width only), raw text "
             "in the two float formats Colvars uses, raw binary) x 3 data patterns with a distinct value per cell; a case is distinct by that tuple and "
